@@ -148,6 +148,15 @@ func (eng *Engine) resolveGuards() {
 	}
 }
 
+func (eng *Engine) findLemma(pkg, name string) *Contract {
+	for _, l := range eng.cs.Lemmas {
+		if l.Key == "lemma:"+pkg+"."+name {
+			return l
+		}
+	}
+	return nil
+}
+
 func (eng *Engine) typesPkg(suffix string) *types.Package {
 	return eng.tpkgs[suffix]
 }
